@@ -84,6 +84,14 @@ CHECKS = {
             "Verificator.tla (one action per public call) is model-checked against 12 invariants / action properties; every "
             "transition of the emission configuration is executed on the real class with the whole verif_dict and the returned "
             "value compared; random histories over up to 6 telecommands are validated by Trace_Verificator.", "DESIGN.md 5/C16", ""),
+    "C17": (True, "model_checking",
+            "TLA+ spec of USLP headers and frames (total frame decoder over managed parameters); TLC grid model checking + "
+            "vector replay; TLC trace validation",
+            "Uslp.tla gives the header bit layout, the frame composition and a total decoder parameterised by the managed "
+            "parameters; TLC checks header / frame round trip, length and frame-length-field, prefix refusal, trailing-octet and "
+            "mismatch laws on the grid, every vector (IDs straddling octet boundaries, VCF lengths 0..7, refusals incl. negative "
+            "IDs, 8 rules x frame types, 13 managed-parameter variants per sample) is executed on the classes, and random "
+            "headers / frames / perturbed parameter sets are recorded and validated by TLC.", "DESIGN.md 5/C17", ""),
     "C19": (True, "model_checking",
             "TLA+ state machine of the counters incl. character-level file model; TLC exhaustive for widths 1..4 with restarts "
             "and file faults; every transition replayed on real providers/files; TLC trace validation of histories > 2^W",
@@ -100,5 +108,5 @@ CHECKS = {
             "validated by TLC.", "DESIGN.md 5/C20", ""),
 }
 NOT_YET = {}
-for _i in [4, 9, 10, 11, 17, 18]:
+for _i in [4, 9, 10, 11, 18]:
     NOT_YET[f"C{_i:02d}"] = "check not built yet in this revision of /verif (construction in progress, see DESIGN.md 11)"
